@@ -1,9 +1,10 @@
 # Build of the simulation harness and of the votca sources it runs, straight
 # from /repo's working tree.  Nothing is taken from /repo/_build.
 #   make CFG=plain|san  [engines...]
-REPO ?= /repo
+REPO ?= $(if $(VERIF_REPO),$(VERIF_REPO),/repo)
 CFG  ?= plain
-V    := /verif
+# the directory this Makefile lives in (normally /verif; a snapshot of it when self-tests run in the background)
+V    := $(patsubst %/,%,$(dir $(abspath $(lastword $(MAKEFILE_LIST)))))
 B    := $(V)/build/$(CFG)
 GEN  := $(V)/build/gen
 
